@@ -688,12 +688,21 @@ func (r *Resolver) resolveDeferSingle(dc *deferContext, ctx *Context, group *Def
 	groupLoader := NewLoader(r.options, r.allowedErrorExtensionFields, r.allowedErrorFields, r.subgraphRequestSingleFlight, dc.arena, dc.db, dc.authorization)
 	groupLoader.Init(ctx, dc.info) // fresh taintedObjs; errors=nil
 
-	if fetchErr := groupLoader.ResolveFetchNode(group.Fetches); fetchErr != nil {
+	fetchErr := groupLoader.ResolveFetchNode(group.Fetches)
+	if ctxErr := ctx.ctx.Err(); ctxErr != nil {
+		// The client is gone (request context cancelled): there is nobody to deliver
+		// this group's frame - data or error - to, so do not touch the writer again.
+		return nil, ctxErr
+	}
+	if fetchErr != nil {
 		// A hard fetch-phase error (e.g. pre-fetch authorizer/rate-limiter error) is
 		// scoped to this defer's completed entry: the announced pending is completed
 		// with the error and the stream terminates.
 		dc.db.Lock()
 		defer dc.db.Unlock()
+		if ctxErr := ctx.ctx.Err(); ctxErr != nil {
+			return nil, ctxErr // disconnected while waiting for the lock
+		}
 		groupLoader.appendSubgraphErrorsToContext()
 		descriptor := dc.resolvable.deferDescriptors[group.DeferID]
 		dc.resolvable.currentDefer = &descriptor
@@ -706,6 +715,9 @@ func (r *Resolver) resolveDeferSingle(dc *deferContext, ctx *Context, group *Def
 	// RENDER PHASE — serialised by the DataBuffer lock.
 	dc.db.Lock()
 	defer dc.db.Unlock()
+	if ctxErr := ctx.ctx.Err(); ctxErr != nil {
+		return nil, ctxErr // disconnected while waiting for the lock
+	}
 
 	// Inject group-local state into Resolvable for this render.
 	dc.resolvable.data = dc.db.Get()
